@@ -6,7 +6,7 @@ import os
 from ..lib import cbuild, tlc
 from ..lib.common import workdir, rmworkdir, seed, log, MachineryError
 from ..lib.report import Report
-from ..drivers import progdrv
+from ..drivers import progdrv, replaylib
 
 PID = 'C06'
 
@@ -139,3 +139,42 @@ def run(tier):
                 'agreement, latch, ranges and ROM immutability only; distinct_nontrivial = distinct (pair, PC, dT)')
     rmworkdir('c06')
     return rep.finish()
+
+
+def rerun(rp, path):
+    """The program of a recorded trace (start registers, memory overlay, port value, interrupts, machine) run again in lock-step
+    on the recorded implementation pair of the current tree -> (fresh trace record, is it a 128K one)."""
+    replaylib.need(rp, path, 'pair', 'r0', 'inv', 'ints', 'obs')
+    pair = tuple(rp['pair'].split('+'))
+    if pair not in progdrv.PAIRS:
+        raise MachineryError('unusable replay file %s: unknown implementation pair %r' % (path, rp['pair']))
+    cbuild.preload()
+    steps = rp.get('steps', len(rp['obs']))          # older files: as many boundaries as were recorded
+    if 'pov0' in rp:
+        replaylib.need(rp, path, 'o70')
+        return progdrv.run_pair128(pair, rp.get('kind') == '128k-alias' or not rp.get('sem', 1), rp['r0'], rp['pov0'], rp['o70'], rp['inv'],
+                                   bool(rp['ints']), steps), True
+    replaylib.need(rp, path, 'ov0')
+    if rp.get('kind') == 'int-push':
+        return progdrv.int_push(pair, rp['r0'], rp['ov0'], rp['inv'], rp.get('slot', '?')), False
+    return progdrv.run_pair(pair, rp.get('kind', '?'), rp['r0'], rp['ov0'], rp['inv'], bool(rp['ints']), steps), False
+
+
+def replay(path):
+    """./check C06 --replay replays/C06-n.json : run the recorded program again on the recorded pair, judge every boundary
+    again by MachineTrace / Machine128 and compare the one-call run with the stepped one again."""
+    d, rp = replaylib.load(path, PID)
+    wd = workdir('replay-c06')
+    t, m128 = rerun(rp, path)
+    rep = Report(PID, 'replay')          # only collects TLC statistics; never finished (no evidence written)
+    bad = judge_runs128(rep, [t], wd) if m128 else judge_runs(rep, [t], wd)
+    sfx = '128' if m128 else ''
+    found = []
+    for _, l, clause in bad:
+        pre = t['r0'] if l == 1 else t['obs'][l - 2]['r']
+        found.append('run%s:%s:%s: step %d from PC=%d T=%d; observed r=%s partner r=%s'
+                     % (sfx, t['pair'], clause, l, pre[24], pre[25], t['obs'][l - 1]['r'], t['obs'][l - 1]['r2']))
+    if not t['loop_ok']:
+        found.append('loop%s:%s: %d instructions by ONE call of the trace loop end in a different state: %s' % (sfx, t['pair'], len(t['obs']), t['whole']))
+    rmworkdir('replay-c06')
+    return replaylib.verdict(PID, path, found)
